@@ -636,6 +636,16 @@ func planReaderRun(mode string, k int, seed int64, thorough bool) (*readerRun, [
 		}
 		run.Mut = fmt.Sprintf("cut@%d/%d", cut, len(stream))
 		stream = stream[:cut]
+		if k%3 == 2 {
+			// a truncated stream read with a block range: the cut may fall inside a block that the range skips
+			nblk := (size + int(B) - 1) / int(B)
+			run.R.From = 1 + rnd.Intn(nblk+1)
+			run.R.To = run.R.From + rnd.Intn(nblk+2)
+			if rnd.Intn(3) == 0 {
+				run.R.To = 0
+			}
+			expected = expectedSlice(orig, int(B), run.R.From, run.R.To)
+		}
 	case "c08r":
 		run.Mode = "srcfault"
 		run.After = 4
